@@ -124,6 +124,9 @@ struct Writer {
 struct SaveRec {
     /// (key, value written, value of the key in the base the writer started from)
     entries: Vec<(u8, u8, Option<u8>)>,
+    /// the saved table does not have the head it started from in its ancestor chain
+    /// (the base segment was squashed into the new table)
+    base_squashed_away: bool,
 }
 
 fn lookup(t: &Arc<ReadonlyTable>, k: u8) -> Option<u8> {
@@ -205,8 +208,21 @@ fn check_head_with(
             }
         }
         if superseded.contains(&r) {
+            // Narrow class (known finding): every save that overwrote `r` squashed its base
+            // segment into the new table, so the new head no longer has the base head in its
+            // ancestor chain; a reader that sees both heads (between add_head and remove_head
+            // of that save, or after a crash there) merges the old head as if it were divergent.
+            let overwriters: Vec<&SaveRec> = saves
+                .iter()
+                .filter(|s| s.entries.iter().any(|e| e.0 == k && e.2 == Some(r) && e.1 != r))
+                .collect();
+            let suffix = if !overwriters.is_empty() && overwriters.iter().all(|s| s.base_squashed_away) {
+                "/overwriting-save-squashed-its-base-head"
+            } else {
+                ""
+            };
             return Err((
-                format!("C21/{part}/sequentially-older-value-wins"),
+                format!("C21/{part}/sequentially-older-value-wins{suffix}"),
                 format!(
                     "key {k} reads {r}, but a completed save that started from a head containing {r} \
                      overwrote it (saves of this key as (value, value in base): {written:?})"
@@ -262,7 +278,7 @@ fn run_history(
                     let wr = &mut writers[*w];
                     let base = wr.base.clone().unwrap();
                     let mut mt = base.start_mutation();
-                    let mut rec = SaveRec { entries: vec![] };
+                    let mut rec = SaveRec { entries: vec![], base_squashed_away: false };
                     for (k, v) in &wr.pending {
                         mt.add_entry(vec![*k], vec![*v]);
                         rec.entries.push((*k, *v, lookup(&base, *k)));
@@ -288,6 +304,7 @@ fn run_history(
                             format!("lookups of {universe:?} before save {before:?} after save (squash/reload) {after:?}"),
                         ));
                     }
+                    rec.base_squashed_away = !table.ancestor_segments().any(|s| s.name() == base.name());
                     saves.push(rec);
                     wr.base = Some(table);
                     wr.pending.clear();
@@ -423,11 +440,13 @@ fn run_proc(
             let v = 16 * (i as u8 + 1);
             mt.add_entry(vec![own], vec![v]);
             mt.add_entry(vec![SHARED_KEY], vec![v + 1]);
-            let rec = SaveRec {
+            let mut rec = SaveRec {
                 entries: vec![(own, v, lookup(&head, own)), (SHARED_KEY, v + 1, lookup(&head, SHARED_KEY))],
+                base_squashed_away: false,
             };
             attempted.lock().unwrap().extend([(own, v), (SHARED_KEY, v + 1)]);
-            store.save_table(mt).map_err(|e| format!("save_table: {e}"))?;
+            let table = store.save_table(mt).map_err(|e| format!("save_table: {e}"))?;
+            rec.base_squashed_away = !table.ancestor_segments().any(|s| s.name() == head.name());
             done.lock().unwrap().push(rec);
             drop(lock);
             Ok(())
